@@ -38,6 +38,10 @@ func (msg Message) generateMarshalBebopTo(w *iohelp.ErrorWriter, settings Genera
 		writeFieldByter(name, fd.FieldType, w, settings, 2)
 		writeLineWithTabs(w, "}", 1)
 	}
+	// messages end in a 0 byte; write it explicitly so that a reused
+	// buffer's prior contents do not leak into the encoding
+	writeLine(w, "\tbuf[at] = 0")
+	writeLine(w, "\tat++")
 	writeLine(w, "\treturn at")
 	writeCloseBlock(w)
 }
